@@ -270,11 +270,48 @@ def task_protonate(pr, repo):
                   found.get('--keep-protons') is True and found.get('--protonate-all') is True, detail=str(found)))
 
 
+def task_bonded_groups(pr, repo):
+    """BG: the covalent-coupling search finds the titratable groups within coupling_max_number_of_bonds bonds - the same set whether or
+    not hydrogens are attached to the atoms on the way (hydrogens are only there with --protonate-all / keep-protons)."""
+    ex = Executor(repo)
+    CCn = 'propka.conformation_container.ConformationContainer'
+    fi = repo.func(CCn + '.find_bonded_titratable_groups')
+    pr.under_contract(fi)
+    A = repo.cls('propka.atom.Atom')
+    Gc = repo.cls('propka.group.Group')
+    for nheavy in (2, 3, 4, 5):
+        for with_h in (False, True):
+            def thunk(ex, ctx, nheavy=nheavy, with_h=with_h):
+                atoms = [record('a%d' % i, A, element='C', bonded_atoms=[], group=None, name='C%d' % i) for i in range(nheavy)]
+                for i in range(nheavy - 1):
+                    atoms[i].attrs['bonded_atoms'].append(atoms[i + 1])
+                    atoms[i + 1].attrs['bonded_atoms'].append(atoms[i])
+                g0 = record('g0', Gc, titratable=True, label='N+    1 A', atom=atoms[0])
+                g1 = record('g1', Gc, titratable=True, label='CYS   1 A', atom=atoms[-1])
+                atoms[0].attrs['group'], atoms[-1].attrs['group'] = g0, g1
+                if with_h:
+                    for i, a in enumerate(atoms):
+                        for k in range(3 if i == 0 else 1):
+                            h = record('h%d_%d' % (i, k), A, element='H', bonded_atoms=[a], group=None, name='H')
+                            a.attrs['bonded_atoms'].append(h)
+                conf = record('conf', repo.cls(CCn), parameters=record('P', None, coupling_max_number_of_bonds=3))
+                r0 = ex.call_function(fi, [atoms[0], 1, atoms[0]], self_obj=conf)
+                r1 = ex.call_function(fi, [atoms[-1], 1, atoms[-1]], self_obj=conf)
+                near = (nheavy - 1) <= 3
+                ok = (set(r0) == ({g1} if near else set())) and (set(r1) == ({g0} if near else set()))
+                ctx.oblige('BG[%d bonds apart, hydrogens %s]: the groups found are exactly those within 3 bonds, from either end' %
+                           (nheavy - 1, 'attached' if with_h else 'absent'), ok)
+            pr.explore(ex, thunk, 'find_bonded_titratable_groups %d %s' % (nheavy, with_h))
+
+
 def run(pr, repo):
-    from . import C01
+    from . import C01, C17
     # classification does not look at attached hydrogens (what makes --protonate-all harmless for the census)
     pr.parallel([(task_stutter, (t,)) for t in reader.TAGS] + [(task_absorb, ()), (task_element, ()), (task_protonate, ()),
-                                                                (C01.task_classify, ())])
+                                                                (C01.task_classify, ()), (task_bonded_groups, ()),
+                                                                # constructed hydrogens are stored ON the 0.001 grid, i.e. exactly as
+                                                                # a written file carries them (own hydrogens fed back: same numbers)
+                                                                (C17.task_add_proton, ())])
     task_columns(pr, repo)
     pr.assumptions += ['4-character atom names without a letter in columns 13-14 make set_properties raise IndexError (not claimed)',
                        'stutter/simulation rule; hydrogens are assumed to sit inside their residue block (HY pre)',
